@@ -183,6 +183,19 @@ static const std::vector<Adm>& admitted(int ndim)
       // accepted = the user-facing constructor builds the structure in this dimension without an error
       // (CovAniso is what Model::addCovFromParam and the CovAniso::create* functions go through) and it is a
       // Euclidean covariance (sphere-only / spectral-only ones are outside the statement)
+      // (cheap pre-filter on the bare function: the CovAniso constructor of a spectral structure such as MARKOV
+      // runs a 256^ndim FFT)
+      {
+        std::unique_ptr<ACovFunc> f0;
+        try
+        {
+          CovContext ctxt0(1, ndim);
+          f0.reset(CovFactory::createCovFunc(e, ctxt0));
+        }
+        catch (const LibExit&) { f0.reset(); }
+        catch (const std::exception&) { f0.reset(); }
+        if (!f0 || !f0->hasCovOnRn() || !f0->getCompatibleSpaceR()) continue;
+      }
       std::unique_ptr<CovAniso> ca;
       try
       {
